@@ -221,6 +221,12 @@ class ServiceInfo(RecordUpdateListener):
     @name.setter
     def name(self, name: str) -> None:
         """Replace the the name and reset the key."""
+        if self.server_key is not None and self.server_key == self.key:
+            # The host name was defaulted to the instance name (set_server_if_missing),
+            # it follows the instance name when the service is renamed
+            self.server = name
+            self.server_key = name.lower()
+            self._get_address_and_nsec_records_cache = None
         self._name = name
         self.key = name.lower()
         self._dns_service_cache = None
